@@ -161,6 +161,33 @@ def gen_inputs(chk, P):
     for i in range(3 if quick else 12):
         rnd = G.rand_bytes(rng, P['TABLE_SIZE'] + rng.choice([1, 2, 50, 3000]), rng.choice([None, None, bytes(range(64))]))
         ins.append(('rt:pool:dry+lowtail', rnd + G.pieces_tail(rng, rnd, rng.choice([3, 12, 40]), rng.choice([300, 3000]))))
+    # ---- wave 5 (own random stream again)
+    rng = chk.rng('inputs5')
+    # the trailer: inputs whose stored check hash ends / starts in 0xff, 0x00 (0xffff, 0x0000, ...): every proper prefix
+    # and every trailer alteration of their encodings is decoded (section 2)
+    for pat, d in G.special_trailer_inputs(rng, P):
+        ins.append(('trailer:' + pat, d))
+    # the decoder reaches the trailer with an EMPTY current buffer exactly when the input length is a non-zero multiple
+    # of BUF_LEN: k * BUF_LEN and its neighbours for k = 1, 2, 3, several kinds of content (the model runs buf-1/+0/+1,
+    # 2buf_exact above and 3buf_exact here; the rest is judged by the round trip on the implementation)
+    ins.append(('3buf_exact', G.periodic(rng, 3 * B, rng.choice([251, 509, 4099]), 200)))
+    for k in (1, 2, 3):
+        for dlt in (-1, 0, 1):
+            style = rng.randrange(4)
+            n = k * B + dlt
+            if style == 0:
+                d = bytes([rng.randrange(256)]) * n
+            elif style == 1:
+                d = G.periodic(rng, n, rng.choice([7, 64, 997, 65536]), rng.choice([0, 30, 3000]))
+            elif style == 2:
+                d = G.low_entropy(rng, n, rng.choice([2, 16, 64]))
+            else:
+                d = (G.lz_like(rng, 5000, b'abcdefgh') * (n // 5000 + 1))[:n]
+            ins.append(('rt:bufx:%d*B%+d' % (k, dlt), d))
+    ins.append(('rt:bufx:incompr:%d*B' % 1, G.rand_bytes(rng, B)))
+    if not quick:
+        ins.append(('rt:bufx:incompr:%d*B' % 2, G.rand_bytes(rng, 2 * B)))
+        ins.append(('rt:bufx:4*B', G.periodic(rng, 4 * B, 1000, 100)))
     return ins
 
 
@@ -215,7 +242,7 @@ def run(chk):
     t0 = time.time()
     # kinds 'rt:...' are judged by the round trip on the implementation alone (no model run)
     mi = [i for i, (k, _) in enumerate(ins) if not k.startswith('rt:')]
-    cheap = ('rep', 'periodic', '3buf', '2buf_exact', 'stale:const', 'stale:period|B', 'stale:X+X[:k]', 'stale:splice')
+    cheap = ('rep', 'periodic', '3buf', '2buf_exact', '3buf_exact', 'stale:const', 'stale:period|B', 'stale:X+X[:k]', 'stale:splice')
     mr = run_par(model, [el[i] for i in mi],
                  costs=[2000 + len(el[i]) * (1 if ins[i][0] in cheap or ins[i][0].startswith('buf') else 12) for i in mi])
     em = [None] * len(el)
@@ -262,6 +289,37 @@ def run(chk):
         cap = 250 if len(d) <= 700 else 60
         for mk, s_ in (ms if len(ms) <= cap else rng.sample(ms, cap)):
             dl.append(('dec 1 %d %s' % (rng.choice([0, 255]), hx(s_)), mk, d))
+    # wave 5: the trailer family (every proper prefix; each of the 9 trailer bytes -> 0x00 / 0xff / +-1; trailer bytes
+    # dropped from the middle; extensions) of the encodings whose stored hash has special end bytes: the inputs searched
+    # for that (kind trailer:*) and whatever other short encoding of this run happens to end in 0xff / 0x00
+    rng5 = chk.rng('trailer')
+    tr = [x for x in encs if x[0].startswith('trailer:')]
+    nat = [x for x in encs if not x[0].startswith(('trailer:', 'rt:')) and 12 <= len(x[2]) <= 80 and x[2][-1] in (0, 255)]
+    rng5.shuffle(nat)
+    for k, d, e in tr + nat[:(8 if quick else 200)]:
+        chk.dist('trailer_family', 'stream ends in %02x' % e[-1] if e[-1] in (0, 1, 254, 255) else 'other last byte')
+        if e[-2:] in (b'\xff\xff', b'\0\0'):
+            chk.dist('trailer_family', 'stream ends in %s' % e[-2:].hex())
+        if e[-9:-7] in (b'\0\0', b'\0\xff'):
+            chk.dist('trailer_family', 'first hash byte %02x' % e[-8])
+        for mk, s_ in G.trailer_mutants(e):
+            dl.append(('dec 1 %d %s' % (rng5.choice([0, 255]), hx(s_)), mk, d))
+    # every encoding of the run that ends in a run of 0xff / 0x00 bytes, whatever its size: cut inside and before that run
+    for k, d, e in encs:
+        if e[-1] in (0, 255) and len(e) < (20000 if k.startswith('rt:') else 200000):
+            run_ = len(e) - len(e.rstrip(e[-1:]))
+            for c in range(1, min(run_, 8) + 2):
+                dl.append(('dec 1 0 ' + hx(e[:len(e) - c]), 'trunc-rt' if k.startswith('rt:') else 'trunc', d))
+    # inputs of exactly k * BUF_LEN bytes (the trailer is met with an empty current buffer): the whole trailer cut off
+    # byte by byte and each trailer byte altered
+    for k, d, e in encs:
+        if len(d) >= P['BUF_LEN'] and len(d) % P['BUF_LEN'] == 0 and len(e) < (20000 if k.startswith('rt:') else 200000):
+            rt_ = '-rt' if k.startswith('rt:') else ''
+            for c in ((1, 2, 8, 9, 10) if quick or rt_ else range(1, 12)):
+                dl.append(('dec 1 0 ' + hx(e[:len(e) - c]), 'trunc' + rt_, d))
+            for i in ((len(e) - 1, len(e) - 9) if quick else range(len(e) - 9, len(e))):
+                dl.append(('dec 1 0 ' + hx(e[:i] + bytes([e[i] ^ (1 << rng5.randrange(8))]) + e[i + 1:]), 'sub' + rt_, d))
+            dl.append(('dec 1 0 ' + hx(e + b'\xff'), 'ext' + rt_, d))
     singles = [(k, d, e) for k, d, e in encs if len(d) <= 700]
     rng.shuffle(singles)
     singles_big = [(k, d, e) for k, d, e in encs if 700 < len(d) <= (5000 if quick else 40000) and len(e) <= 20000]
@@ -315,6 +373,8 @@ def run(chk):
                 bad.append(('roundtrip', [encl.get(l, 'enc ' + hx(d)), l], 'decode(encode(data)) != data (%d bytes): got %s' % (len(d), x[:60])))
             elif kind in ('trunc', 'ext') and x != 'R' and x != 'SKIPPED':
                 bad.append(('trunc-ext', [l], '%s of an encoder output is accepted: %s' % (kind, x[:60])))
+            elif kind == 'sub' and x.startswith('A') and x != 'A ' + hx(d):
+                bad.append(('altered-accepted', [l], 'altered stream accepted with different data (%s): %s' % (kind, x[:60])))
             continue
         chk.dist('dec_verdict_model', y[:1])
         if kind in ('sub', 'ref_len', 'crafted:overlap') and nshown < 3 and y == 'R':
@@ -391,12 +451,19 @@ def run(chk):
                        'compared; a case is non-trivial unless it is an encoder input shorter than 4 bytes; distinct by case text')
 
 
-def glue_module(n, name='m'):
+def glue_module(n, name='m', content=None):
     return ('%s: module\nd1: string "%s"\nf: func i64, i64:a\n local i64:r\n add r, a, 1\n ret r\n endfunc\nendmodule\n'
-            % (name, 'a' * n)).encode()
+            % (name, 'a' * n if content is None else content)).encode()
+
+
+def run_each(exe, lines, env=None, timeout=600):
+    """every line in a process of its own, JOBS at a time (a few expensive lines)"""
+    with ThreadPoolExecutor(max_workers=JOBS) as ex:
+        return list(ex.map(lambda l: run_shard(exe, [l], env, timeout)[0], lines))
 
 
 def glue_phase(chk, P, model, bad, tie_broken):
+    quick = chk.tier == 'quick'
     """mir.c's use of the codec: MIR_write_with_func output is exactly the model's encoding of the
     uncompressed binary; MIR_read_with_func reads it back; every stream the model rejects raises
     MIR_binary_io_error (no silent acceptance, no sanitizer report)."""
@@ -421,26 +488,51 @@ def glue_phase(chk, P, model, bad, tie_broken):
             break
         n += B - L
     if exact is not None:
-        texts.append(exact)
+        # the neighbours and the second multiple: the string length moves the size byte for byte as long as the width of
+        # its length field stays (the size actually reached is measured below, by the model's decoder, for every text)
+        texts += [exact, glue_module(n - 1), glue_module(n + 1), glue_module(n + B)]
+        if not quick:
+            texts.append(glue_module(n + 2 * B))
     else:
         chk.notes.append('glue: could not build a module with uncompressed size BUF_LEN')
+    # written streams whose LAST byte (top byte of the stored hash) is 0xff / 0x00: small modules with varying string
+    # content, the first few whose image ends that way (about 1 in 256 each) get the whole trailer family below
+    cand = [glue_module(0, 'm', ''.join(rng.choice('abcdefghijklmnopqrstuvwxyz') for _ in range(rng.randrange(1, 14))))
+            for _ in range(2000 if quick else 6000)]
+    cw = run_par(glue, ['write ' + t.hex() for t in cand], ENV)
+    got = {}
+    for t, w in zip(cand, cw):
+        if w.startswith('W ') and len(w) > 30:
+            key = 'ffff' if w.endswith('ffff') else '0000' if w.endswith('0000') else w[-2:] if w[-2:] in ('ff', '00') else None
+            if key is not None and got.get(key, 0) < {'ff': 2}.get(key, 1) and t not in texts:
+                got[key] = got.get(key, 0) + 1
+                texts.append(t)
+    chk.cov['glue_special_trailers'] = 'written modules whose image ends in: %s (of %d candidates)' % (
+        ', '.join('%s x%d' % kv for kv in sorted(got.items())) or 'none found', len(cand))
     ws = run_par(glue, ['write ' + t.hex() for t in texts], ENV)
+    ok_i = [i for i, w in enumerate(ws) if w.startswith('W ')]
+    mds = dict(zip(ok_i, run_each(model, ['dec 1 0 ' + ws[i][2:] for i in ok_i])))
+    ok_e = [i for i in ok_i if mds[i].startswith('A ')]
+    mes = dict(zip(ok_e, run_each(model, ['enc ' + mds[i][2:] for i in ok_e])))
     cases = []   # (line, kind, expect_ok or None)
-    for t, w in zip(texts, ws):
+    for ti, (t, w) in enumerate(zip(texts, ws)):
         chk.count(('glue-write', t), nontrivial=True); chk.dist('cases', 'glue:write')
         if not w.startswith('W '):
             bad.append(('glue-write', ['write ' + t.hex()], 'MIR_write_with_func fails on a valid module: ' + w))
             continue
         s_ = bytes.fromhex(w[2:])
-        d = run_shard(model, ['dec 1 0 ' + hx(s_)], None, 600)[0]
+        d = mds[ti]
         if not d.startswith('A '):
             bad.append(('glue-write', ['write ' + t.hex(), 'dec 1 0 ' + hx(s_)],
                         'the binary written by MIR_write_with_func is not a valid compressed stream (model: %s)' % d[:20]))
             continue
-        e = run_shard(model, ['enc ' + d[2:]], None, 600)[0]
+        e = mes[ti]
         if e != 'E ' + hx(s_):
             tie_broken.append(('glue-enc', ['write ' + t.hex()], 'MIR_write output differs from encode(uncompressed binary)'))
-        exact_p = (len(d) - 2) // 2 % B == 0
+        L = (len(d) - 2) // 2
+        exact_p = L % B == 0
+        chk.dist('glue_uncompressed_size', '%d*BUF_LEN%+d' % ((L + 1) // B, L - (L + 1) // B * B) if L >= B - 1 and
+                 abs(L - (L + 1) // B * B) <= 1 else '<BUF_LEN' if L < B else 'other')
         cases.append(('read ' + hx(s_), 'valid-exact' if exact_p else 'valid', s_))
         muts = [('prefix', b'XYZ' + s_[3:]), ('prefix', b'MIS' + s_[3:]), ('prefix', s_[:2] + b'r' + s_[3:]),
                 ('trunc', s_[:-1]), ('trunc', s_[:-9]), ('trunc', s_[:len(s_) // 2]), ('trunc', s_[:3]), ('trunc', b''),
@@ -456,6 +548,11 @@ def glue_phase(chk, P, model, bad, tie_broken):
         # *data* is C11's subject, not the compression layer's.)
         for i in (len(s_) - 1, len(s_) - 5, len(s_) - 8, len(s_) - 9):
             muts.append(('sub-trailer', s_[:i] + bytes([s_[i] ^ (1 << rng.randrange(8))]) + s_[i + 1:]))
+        if len(s_) < 400 and s_[-1] in (0, 255):
+            # an image ending in 0xff / 0x00: every proper prefix, every trailer byte altered / dropped, extensions
+            muts += [({'sub': 'sub-trailer'}.get(k, k), m) for k, m in G.trailer_mutants(s_)]
+        elif exact_p:
+            muts += [('trunc', s_[:len(s_) - c]) for c in (2, 8, 10)] + [('ext', s_ + b'\xff')]
         for k, m in muts:
             cases.append(('read ' + hx(m), k, m))
     rl = [c[0] for c in cases]
